@@ -37,12 +37,15 @@
 (*                itself (seeded C13-C): a second writer                   *)
 (*   "abandon"    the send loop gives up a blocked write at the message's  *)
 (*                deadline (seeded C13-D)                                  *)
+(*   "sharedDiscard" _OnTimeout patches the tag into one prebuilt          *)
+(*                Tdiscarded frame and queues that object (seeded C13-E):  *)
+(*                a second timeout before the first is written changes it  *)
 (* Invariants: WholeFramesInOrder (the delivered stream is the             *)
 (* concatenation of the supplied frames in the order their writes began,   *)
 (* all complete but possibly the one being written), AbsAccepts (the       *)
 (* property-level stream machine accepts every step and every quiescent    *)
 (* point).  Both hold for "asis"; TLC returns counterexamples for the      *)
-(* three seeded designs.                                                   *)
+(* four seeded designs.                                                     *)
 (***************************************************************************)
 EXTENDS MuxStreamAbs
 
@@ -55,11 +58,11 @@ CONSTANTS Calls,      \* call ids 1..n (tag of call m is m + 1, as the tag pool 
           Lowat,      \* write low-water mark: free space at which a blocked sender is woken
           Variant
 
-VARIABLES opened, cstate, scratch, queue, w, pw, run, room, expired, transit, pings, closed,
+VARIABLES opened, cstate, scratch, dframe, dframe, queue, w, pw, run, room, expired, transit, pings, closed,
           started,    \* ghost: the frames whose write was begun, as supplied, in that order
           wire,       \* ghost: every byte the socket accepted
           viol        \* ghost: first clause of MuxStreamAbs that failed
-cvars == <<opened, cstate, scratch, queue, w, pw, run, room, expired, transit, pings, closed>>
+cvars == <<opened, cstate, scratch, dframe, dframe, queue, w, pw, run, room, expired, transit, pings, closed>>
 vars  == <<cvars, started, wire, viol, svars, accepted>>
 
 Min2(a, b) == IF a < b THEN a ELSE b
@@ -75,6 +78,7 @@ Init ==
   /\ opened = FALSE
   /\ cstate = [m \in Calls |-> "new"]
   /\ scratch = 0
+  /\ dframe = TdiscardedFrame(0, 0, <<67>>)     \* "sharedDiscard": the prebuilt Tdiscarded frame
   /\ queue = <<>>
   /\ w = [st |-> "get", item |-> NoItem, off |-> 0]
   /\ pw = [st |-> "idle", off |-> 0]
@@ -102,7 +106,7 @@ Shutdown(mid) ==      \* _Shutdown: socket closed, greenlets killed
 OpenDone ==
   /\ Quiet /\ ~opened
   /\ opened' = TRUE
-  /\ UNCHANGED <<cstate, scratch, queue, w, pw, run, room, expired, transit, pings, closed, started, wire, viol,
+  /\ UNCHANGED <<cstate, scratch, dframe, queue, w, pw, run, room, expired, transit, pings, closed, started, wire, viol,
                  svars, accepted>>
 
 \* what the transport frames for call m: the contents of the buffer it was handed
@@ -121,14 +125,14 @@ Issue(m) ==
           /\ cstate' = [cstate EXCEPT ![m] = "queued"]
      ELSE /\ cstate' = [cstate EXCEPT ![m] = "parked"]              \* self._open_result.wait()
           /\ UNCHANGED queue
-  /\ UNCHANGED <<opened, w, pw, run, room, expired, transit, pings, closed, started, wire, accepted>>
+  /\ UNCHANGED <<opened, dframe, w, pw, run, room, expired, transit, pings, closed, started, wire, accepted>>
 
 \* ... data_len = stream.tell(); payload = header + stream.getvalue(); self._send_queue.put(...)
 Resume(m) ==
   /\ Quiet /\ opened /\ cstate[m] = "parked"
   /\ queue' = Enqueue(queue, m, scratch)
   /\ cstate' = [cstate EXCEPT ![m] = "queued"]
-  /\ UNCHANGED <<opened, scratch, w, pw, run, room, expired, transit, pings, closed, started, wire, viol,
+  /\ UNCHANGED <<opened, scratch, dframe, w, pw, run, room, expired, transit, pings, closed, started, wire, viol,
                  svars, accepted>>
 
 \* ------------------------------------------------------------ the send loop
@@ -137,7 +141,7 @@ WriterWake ==
   /\ \/ w.st = "get" /\ queue # <<>> /\ w' = [w EXCEPT !.st = "loop"]
      \/ w.st = "blocked" /\ room >= Lowat /\ w' = [w EXCEPT !.st = "send"]
   /\ run' = "w"
-  /\ UNCHANGED <<opened, cstate, scratch, queue, pw, room, expired, transit, pings, closed, started, wire, viol,
+  /\ UNCHANGED <<opened, cstate, scratch, dframe, queue, pw, room, expired, transit, pings, closed, started, wire, viol,
                  svars, accepted>>
 
 \* payload, dct = self._send_queue.get(); if self._HandleTimeout(dct): continue
@@ -154,15 +158,20 @@ WriterLoop ==
                   /\ transit' = IF it.kind = "disp" /\ it.m \in HasDl THEN transit \cup {it.m} ELSE transit
                   /\ started' = Append(started, it.want)
           /\ UNCHANGED run
-  /\ UNCHANGED <<opened, cstate, scratch, pw, room, expired, pings, closed, wire, viol, svars, accepted>>
+  /\ UNCHANGED <<opened, cstate, scratch, dframe, pw, room, expired, pings, closed, wire, viol, svars, accepted>>
+
+\* what the send loop hands to the socket for a queue entry: the entry's own bytes, or, for the
+\* "sharedDiscard" design, whatever the one prebuilt Tdiscarded frame holds at that moment
+ItemBytes(it) == IF Variant = "sharedDiscard" /\ it.kind = "disc" THEN dframe ELSE it.bytes
 
 \* one handle.send(buff) of ScalesSocket.write
 WriterSend ==
   /\ run = "w" /\ w.st = "send"
   /\ IF room > 0
-     THEN LET k == Min2(room, Len(w.item.bytes) - w.off) IN
-          /\ Accept(SubSeq(w.item.bytes, w.off + 1, w.off + k))
-          /\ w' = IF w.off + k = Len(w.item.bytes) THEN [st |-> "loop", item |-> NoItem, off |-> 0]
+     THEN LET bytes == ItemBytes(w.item)
+              k     == Min2(room, Len(bytes) - w.off) IN
+          /\ Accept(SubSeq(bytes, w.off + 1, w.off + k))
+          /\ w' = IF w.off + k = Len(bytes) THEN [st |-> "loop", item |-> NoItem, off |-> 0]
                   ELSE [w EXCEPT !.off = w.off + k]
           /\ UNCHANGED <<run, closed>>
      ELSE IF pw.st = "blocked"
@@ -170,7 +179,7 @@ WriterSend ==
           /\ UNCHANGED <<w, wire, room>>
      ELSE /\ w' = [w EXCEPT !.st = "blocked"] /\ run' = "none"
           /\ UNCHANGED <<wire, room, viol, closed, svars>>
-  /\ UNCHANGED <<opened, cstate, scratch, queue, pw, expired, transit, pings, started, accepted>>
+  /\ UNCHANGED <<opened, cstate, scratch, dframe, queue, pw, expired, transit, pings, started, accepted>>
 
 \* ------------------------------------------------------------ ping loop
 PingDue ==
@@ -182,7 +191,7 @@ PingDue ==
           /\ UNCHANGED queue
      ELSE /\ queue' = Append(queue, Item("ping", 0, PingFrame, PingFrame))
           /\ UNCHANGED <<pw, run, started>>
-  /\ UNCHANGED <<opened, cstate, scratch, w, room, expired, transit, closed, wire, viol, svars, accepted>>
+  /\ UNCHANGED <<opened, cstate, scratch, dframe, w, room, expired, transit, closed, wire, viol, svars, accepted>>
 
 PingSend ==       \* "pingDirect" only
   /\ run = "p" /\ pw.st = "send"
@@ -198,12 +207,12 @@ PingSend ==       \* "pingDirect" only
           /\ UNCHANGED <<pw, wire, room>>
      ELSE /\ pw' = [pw EXCEPT !.st = "blocked"] /\ run' = "none"
           /\ UNCHANGED <<wire, room, viol, closed, svars>>
-  /\ UNCHANGED <<opened, cstate, scratch, queue, w, expired, transit, pings, started, accepted>>
+  /\ UNCHANGED <<opened, cstate, scratch, dframe, queue, w, expired, transit, pings, started, accepted>>
 
 PingWake ==
   /\ Quiet /\ pw.st = "blocked" /\ room >= Lowat
   /\ pw' = [pw EXCEPT !.st = "send"] /\ run' = "p"
-  /\ UNCHANGED <<opened, cstate, scratch, queue, w, room, expired, transit, pings, closed, started, wire, viol,
+  /\ UNCHANGED <<opened, cstate, scratch, dframe, queue, w, room, expired, transit, pings, closed, started, wire, viol,
                  svars, accepted>>
 
 \* ------------------------------------------------------------ deadline
@@ -211,28 +220,32 @@ PingWake ==
 Expire(m) ==
   /\ Quiet /\ m \in HasDl /\ cstate[m] # "new" /\ m \notin expired
   /\ expired' = expired \cup {m}
+  /\ viol' = IF viol # "ok" THEN viol ELSE SupDiscCheck(<<m>>)     \* the discard of call m is supplied
+  /\ SupDiscUpd(<<m>>)
   /\ IF m \in transit
      THEN /\ queue' = Append(queue, Item("disc", m, DiscFrame(m), DiscFrame(m)))
           /\ transit' = transit \ {m}
-     ELSE UNCHANGED <<queue, transit>>
+          \* "sharedDiscard": frame[8:11] = tag; the queue entry is that one frame object
+          /\ dframe' = IF Variant = "sharedDiscard" THEN DiscFrame(m) ELSE dframe
+     ELSE UNCHANGED <<queue, transit, dframe>>
   /\ IF Variant = "abandon" /\ w.st = "blocked" /\ w.item.kind = "disp" /\ w.item.m = m
      THEN /\ w' = [st |-> "loop", item |-> NoItem, off |-> 0]      \* gevent.Timeout(remaining, False) fires in write
           /\ run' = "w"
      ELSE UNCHANGED <<w, run>>
-  /\ UNCHANGED <<opened, cstate, scratch, pw, room, pings, closed, started, wire, viol, svars, accepted>>
+  /\ UNCHANGED <<opened, cstate, scratch, pw, room, pings, closed, started, wire, accepted>>
 
 \* ------------------------------------------------------------ peer
 Drain(n) ==
   /\ Quiet /\ room < Cap
   /\ room' = Min2(room + n, Cap)
-  /\ UNCHANGED <<opened, cstate, scratch, queue, w, pw, run, expired, transit, pings, closed, started, wire, viol,
+  /\ UNCHANGED <<opened, cstate, scratch, dframe, queue, w, pw, run, expired, transit, pings, closed, started, wire, viol,
                  svars, accepted>>
 
 \* the connection fails: a blocked send raises, _Shutdown closes the socket
 Fault ==
   /\ Quiet /\ opened
   /\ Shutdown(IF w.st = "blocked" \/ pw.st = "blocked" THEN 1 ELSE 0)
-  /\ UNCHANGED <<opened, cstate, scratch, queue, w, pw, room, expired, transit, pings, started, wire, accepted>>
+  /\ UNCHANGED <<opened, cstate, scratch, dframe, queue, w, pw, room, expired, transit, pings, started, wire, accepted>>
 
 Next ==
   \/ OpenDone \/ WriterWake \/ WriterLoop \/ WriterSend \/ PingDue \/ PingSend \/ PingWake \/ Fault
